@@ -266,6 +266,63 @@ def run_containers(res, spec_, rng):
     ca, cb = api.PatternClone(source=0), api.PatternClone(source=0)
     alias_scan(res, ca, cb, "PatternClone:fresh", {"type": "PatternClone"})
     differential(res, ca, cb, "fresh", "PatternClone", rng, 0, {"type": "PatternClone"})
+    # a refused attach (pattern / clone / module owned by A offered to B) must not leave B holding A's object
+    from rv.errors import ModuleOwnershipError, PatternOwnershipError
+    for what in ("pattern", "clone", "module"):
+        A, B = api.Project(), api.Project()
+        B.attach_pattern(api.Pattern(tracks=1, lines=1))
+        if what == "pattern":
+            obj = api.Pattern(tracks=2, lines=2)
+            A.attach_pattern(obj)
+        elif what == "clone":
+            A.attach_pattern(api.Pattern(tracks=2, lines=2))
+            obj = api.PatternClone(source=0)
+            A.attach_pattern(obj)
+        else:
+            obj = A.new_module(api.m.Amplifier)
+        before = _snapshot_and_bytes(B)
+        for attempt in ("method", "iadd"):
+            try:
+                if what == "module":
+                    B.attach_module(obj) if attempt == "method" else B.__iadd__(obj)
+                else:
+                    B.attach_pattern(obj) if attempt == "method" else B.__iadd__(obj)
+            except (ModuleOwnershipError, PatternOwnershipError):
+                pass
+        res.count("mutations")
+        res.case(("refused-attach", what))
+        # now mutate A's object; B must not notice
+        if what == "pattern":
+            obj.data[0][0].vel = 77
+            obj.name = "changed"
+        elif what == "clone":
+            obj.x = 4242
+        else:
+            obj.volume = 999
+            obj.name = "changed"
+        res.count("b_comparisons")
+        if _snapshot_and_bytes(B) != before:
+            res.violation(f"C17:leak:Project:refused-attach:{what}", f"after project B refused a {what} owned by project A, changing it in A changed B", {"type": "Project", "what": what})
+    # legacy sampler instruments (no signature) loaded side by side with each other and with a current one
+    from . import c16
+    chunks = c16.fixture_chunks()
+    lrng = random.Random(5)
+    legacy = []
+    while len(legacy) < 2:
+        kind, raw, _exp = c16.make_variant(chunks, lrng)
+        if kind == "signature-wiped":
+            legacy.append(raw)
+    L1 = workload.load(legacy[0])
+    before = _snapshot_and_bytes(L1)
+    L2 = workload.load(legacy[1])
+    M = workload.load(api.Synth(api.m.Sampler()).read())
+    res.count("mutations")
+    res.count("b_comparisons")
+    res.case(("legacy-samplers-side-by-side",))
+    if _snapshot_and_bytes(L1) != before:
+        res.violation("C17:leak:Sampler:legacy-side-by-side", "loading a second sampler changed the snapshot / saved bytes of a previously loaded legacy sampler", {"type": "Sampler"})
+    alias_scan(res, L1.module, L2.module, "Sampler:legacy-pair", {"type": "Sampler"})
+    alias_scan(res, L1.module, M.module, "Sampler:legacy-vs-current", {"type": "Sampler"})
     sa, sb = api.Synth(api.m.Amplifier()), api.Synth(api.m.Amplifier())
     alias_scan(res, sa, sb, "Synth:fresh", {"type": "Synth"})
 
